@@ -158,6 +158,7 @@ type retEdge struct {
 	vals []*Val
 	st   *State
 	pos  token.Pos
+	blk  *ssa.BasicBlock
 }
 
 // ---------------------------------------------------------------------
